@@ -9,7 +9,10 @@ trap 'git -C /repo checkout -- . ; git -C /repo clean -fdq -- . 2>/dev/null' EXI
 (go build ./... ) || { echo "BUILD FAILS"; exit 2; }
 cd /verif
 for p in "$@"; do
+  # the evidence files under /verif/evidence must describe the UNCHANGED tree: keep them
+  cp -f evidence/$p.json /tmp/evidence.$p.bak 2>/dev/null
   out=$(./check "$p" --tier "${SEED_TIER:-quick}" 2>/dev/null); rc=$?
+  cp -f /tmp/evidence.$p.bak evidence/$p.json 2>/dev/null
   echo "== $p exit=$rc"
   echo "$out" | grep -E "^(VIOLATION|KNOWN-FINDING|INCONCLUSIVE|PASS|  harness=)" | cut -c1-330 | head -8
 done
